@@ -1330,10 +1330,15 @@ theorem encodeUE_evenTail (t : Str) :
 
 
 
+/-- is the position after the text escaped?  (a backslash escapes exactly the next character) -/
+def escEnd : Bool → Str → Bool
+  | esc, [] => esc
+  | esc, c :: cs => escEnd (!esc && c = '\\') cs
+
 /-- names `registry.close` can write without confusing the reader: printable ASCII without blank,
-not starting with `#`, not ending in a backslash -/
+not starting with `#`, every backslash escaping a character of the name (what `escape` produces) -/
 def GoodName (n : Str) : Prop :=
-  n ≠ [] ∧ (∀ x ∈ n, Plain x ∧ x ≠ ' ') ∧ n.head? ≠ some '#' ∧ n.getLast? ≠ some '\\'
+  n ≠ [] ∧ (∀ x ∈ n, Plain x ∧ x ≠ ' ') ∧ n.head? ≠ some '#' ∧ escEnd false n = false
 
 theorem plain_not_crlf {x : Char} (h : Plain x) : isCRLF x = false := by
   unfold Plain at h; unfold isCRLF
@@ -1348,12 +1353,11 @@ theorem plain_nospace {x : Char} (h : Plain x) (h2 : x ≠ ' ') : isSpace x = fa
   simp
   omega
 
-theorem splitKV_name (nm ser : Str) (pb : Bool) (h1 : ∀ x ∈ nm, x ≠ ' ')
-    (h2 : if nm = [] then pb = false else nm.getLast? ≠ some '\\') :
+theorem splitKV_name (nm ser : Str) (pb : Bool) (h1 : ∀ x ∈ nm, x ≠ ' ') (h2 : escEnd pb nm = false) :
     splitKV pb (nm ++ ':' :: ' ' :: ser) = some (nm, ser) := by
   induction nm generalizing pb with
   | nil =>
-    simp only [if_true] at h2
+    simp only [escEnd] at h2
     subst h2
     simp [splitKV]
   | cons c cs ih =>
@@ -1363,17 +1367,8 @@ theorem splitKV_name (nm ser : Str) (pb : Bool) (h1 : ∀ x ∈ nm, x ≠ ' ')
       | nil => simp
       | cons d ds => simp; exact h1 d (by simp)
     rw [if_neg (by intro hh; exact hnext hh.2.2)]
-    have hcs : if cs = [] then (decide (c = '\\')) = false else cs.getLast? ≠ some '\\' := by
-      simp only [List.cons_ne_nil, if_false] at h2
-      by_cases he : cs = []
-      · subst he; simp at h2 ⊢; exact h2
-      · simp only [he, if_false]
-        cases cs with
-        | nil => exact absurd rfl he
-        | cons d ds => rw [List.getLast?_cons_cons] at h2; exact h2
-    rw [ih (decide (c = '\\')) (fun x hx => h1 x (by simp [hx])) hcs]
-
-
+    simp only [escEnd] at h2
+    rw [ih _ (fun x hx => h1 x (by simp [hx])) h2]
 
 /-- a value line without its LF -/
 def valueContent (name ser : Str) : Str := name ++ ':' :: ' ' :: ser
@@ -1438,7 +1433,7 @@ theorem readLoop_value (name ser t : Str) (rest : List Str) (hn : GoodName name)
     rw [this, takeWhile_append_stop _ _ _ (by intro x hx; simp at hx; subst hx; decide)]
     simp; omega
   have h3 : splitKV false (valueContent name ser) = some (name, ser) :=
-    splitKV_name name ser false (fun x hx => (hn.2.1 x hx).2) (by simp [hn.1]; exact hn.2.2.2)
+    splitKV_name name ser false (fun x hx => (hn.2.1 x hx).2) hn.2.2.2
   have h4 : stripCRLF ser = ser := by
     unfold stripCRLF
     rw [lstripP_id _ _ (fun c hc => plain_not_crlf (all_head hp hc)),
@@ -1975,144 +1970,173 @@ theorem unescapeName_escapeName (n : Str) : unescapeName (escapeName n) = .ok n 
 
 
 
-/-- no unescaped dot inside; the Bool is "the character before is a backslash" -/
+/-- no unescaped dot inside; the Bool is "this character is escaped" -/
 def NoSplit : Bool → Str → Prop
   | _, [] => True
-  | pb, c :: cs => (c = '.' → pb = true) ∧ NoSplit (decide (c = '\\')) cs
+  | esc, c :: cs => (c = '.' → esc = true) ∧ NoSplit (!esc && c = '\\') cs
 
-theorem noSplit_flatMap_dot (e : Str) : ∀ pb, NoSplit pb (e.flatMap (escD '.')) := by
-  induction e with
-  | nil => intro pb; exact True.intro
-  | cons c cs ih =>
-    intro pb
-    rw [List.flatMap_cons]
-    by_cases hc : c = '.'
-    · subst hc
-      have e1 : escD '.' '.' = ['\\', '.'] := by decide
-      rw [e1]
-      exact ⟨fun hh => absurd hh (by decide), ⟨fun _ => by decide, ih _⟩⟩
-    · have e1 : escD '.' c = [c] := by simp [escD, hc]
-      rw [e1]
-      exact ⟨fun h => absurd h hc, ih _⟩
+theorem NoSplit_append (a b : Str) : ∀ esc, NoSplit esc a → NoSplit (escEnd esc a) b → NoSplit esc (a ++ b) := by
+  induction a with
+  | nil => intro esc _ hb; exact hb
+  | cons c cs ih => intro esc ha hb; exact ⟨ha.1, ih _ ha.2 hb⟩
 
-theorem splitDots_noSplit (w : Str) : ∀ pb, NoSplit pb w → splitDots pb w = [w] := by
-  induction w with
-  | nil => intro pb _; rfl
-  | cons c cs ih =>
-    intro pb h
+theorem escEnd_append (a b : Str) : ∀ esc, escEnd esc (a ++ b) = escEnd (escEnd esc a) b := by
+  induction a with
+  | nil => intro esc; rfl
+  | cons c cs ih => intro esc; simp only [List.cons_append, escEnd, ih]
+
+theorem splitDots_ne_nil (esc : Bool) (s : Str) : splitDots esc s ≠ [] := by
+  cases s with
+  | nil => simp [splitDots]
+  | cons c cs =>
     simp only [splitDots]
-    rw [if_neg (by intro hh; have := h.1 hh.1; simp [this] at hh)]
-    rw [ih _ h.2]
+    split
+    · simp
+    · split <;> simp
 
-/-- the character before the separator is not a backslash -/
-def EndsOk (pb : Bool) (w : Str) : Prop := if w = [] then pb = false else w.getLast? ≠ some '\\'
+/-- prepend `w` to the first piece -/
+def consHead (w : Str) : List Str → List Str
+  | [] => [w]
+  | p :: ps => (w ++ p) :: ps
 
-theorem splitDots_sep (w rest : Str) : ∀ pb, NoSplit pb w → EndsOk pb w →
-    splitDots pb (w ++ '.' :: rest) = w :: splitDots false rest := by
+theorem splitDots_append (w rest : Str) : ∀ esc, NoSplit esc w →
+    splitDots esc (w ++ rest) = consHead w (splitDots (escEnd esc w) rest) := by
   induction w with
   | nil =>
-    intro pb _ he
-    simp only [EndsOk, if_true] at he
-    subst he
-    simp [splitDots]
+    intro esc _
+    simp only [List.nil_append, escEnd]
+    cases h : splitDots esc rest with
+    | nil => exact absurd h (splitDots_ne_nil esc rest)
+    | cons p ps => simp [consHead]
   | cons c cs ih =>
-    intro pb h he
-    simp only [List.cons_append, splitDots]
-    rw [if_neg (by intro hh; have := h.1 hh.1; simp [this] at hh)]
-    have he' : EndsOk (decide (c = '\\')) cs := by
-      unfold EndsOk at he ⊢
-      simp only [List.cons_ne_nil, if_false] at he
-      by_cases hcs : cs = []
-      · subst hcs; simp at he ⊢; exact he
-      · simp only [hcs, if_false]
-        cases cs with
-        | nil => exact absurd rfl hcs
-        | cons d ds => rw [List.getLast?_cons_cons] at he; exact he
-    rw [ih _ h.2 he']
+    intro esc h
+    simp only [List.cons_append, splitDots, escEnd]
+    rw [if_neg (by intro hh; have := h.1 hh.2; rw [this] at hh; exact hh.1 rfl)]
+    rw [ih _ h.2]
+    cases hs : splitDots (escEnd (!esc && decide (c = '\\')) cs) rest with
+    | nil => exact absurd hs (splitDots_ne_nil _ rest)
+    | cons p ps => simp [consHead]
 
-theorem getLast_flatMap_escD (d : Char) (s : Str) : (s.flatMap (escD d)).getLast? = s.getLast? := by
-  induction s with
+/-- a run without dot and without backslash -/
+theorem plainRun (w : Str) (h : ∀ x ∈ w, x ≠ '.' ∧ x ≠ '\\') : NoSplit false w ∧ escEnd false w = false := by
+  induction w with
+  | nil => exact ⟨True.intro, rfl⟩
+  | cons c cs ih =>
+    have hc := h c (by simp)
+    have := ih (fun x hx => h x (by simp [hx]))
+    simp only [NoSplit, escEnd, hc.2, decide_false, Bool.and_false]
+    exact ⟨⟨fun e => absurd e hc.1, this.1⟩, this.2⟩
+
+theorem escNameChar_id (c : Char) (h1 : c ≠ ':') (h2 : c ≠ '.') : escNameChar c = [c] := by
+  simp [escNameChar, h1, h2]
+
+theorem hexDigit_name : ∀ k, k < 16 → hexDigit k ≠ ':' ∧ hexDigit k ≠ '.' ∧ hexDigit k ≠ '\\' := by decide
+
+theorem flatMap_escNameChar_id (w : Str) (h : ∀ x ∈ w, x ≠ ':' ∧ x ≠ '.') : w.flatMap escNameChar = w := by
+  induction w with
   | nil => rfl
   | cons c cs ih =>
-    rw [List.flatMap_cons, List.getLast?_append, ih]
-    cases cs with
-    | nil =>
-      simp only [List.getLast?_nil, Option.none_or]
-      unfold escD; split
-      · rename_i h; subst h; rfl
-      · rfl
-    | cons x xs => rw [List.getLast?_cons_cons]; cases hl : (x :: xs).getLast? with
-      | none => simp at hl
-      | some z => simp
+    have hc := h c (by simp)
+    simp only [List.flatMap_cons, escNameChar_id c hc.1 hc.2, ih (fun x hx => h x (by simp [hx]))]
+    rfl
 
-theorem getLast_encodeUE (n : Str) (h : n.getLast? ≠ some '\\') : (encodeUE n).getLast? ≠ some '\\' := by
-  induction n with
-  | nil => simp [encodeUE]
-  | cons c cs ih =>
-    have e : encodeUE (c :: cs) = encChar c ++ encodeUE cs := by simp [encodeUE]
-    rw [e, List.getLast?_append]
-    cases cs with
-    | nil =>
-      have hc : c ≠ '\\' := by intro e; subst e; simp at h
-      obtain ⟨init, z, hz, hzb⟩ := encChar_last c hc
-      simp [encodeUE, hz, hzb]
-    | cons d ds =>
-      rw [List.getLast?_cons_cons] at h
-      have := ih h
-      cases hl : (encodeUE (d :: ds)).getLast? with
-      | none =>
-        exfalso
-        have : encodeUE (d :: ds) ≠ [] := by
-          have e2 : encodeUE (d :: ds) = encChar d ++ encodeUE ds := by simp [encodeUE]
-          rw [e2]
-          obtain hd | hd := Classical.em (d = '\\')
-          · subst hd; simp [encChar]
-          · obtain ⟨init, z, hz, _⟩ := encChar_last d hd; rw [hz]; simp
-        exact this (List.getLast?_eq_none_iff.mp hl)
-      | some z => rw [hl] at this; simpa using this
-
-theorem endsOk_escapeName (n : Str) (h : n.getLast? ≠ some '\\') : EndsOk false (escapeName n) := by
-  unfold EndsOk
+/-- the escaped form of one character, scanned from an unescaped position, contains no separator and
+ends unescaped -/
+theorem nameBlock_ok (c : Char) :
+    NoSplit false ((encChar c).flatMap escNameChar) ∧ escEnd false ((encChar c).flatMap escNameChar) = false := by
+  have hex : ∀ (l : Char) (ds : Str), l ≠ ':' → l ≠ '.' → l ≠ '\\' → (∀ x ∈ ds, x ≠ ':' ∧ x ≠ '.' ∧ x ≠ '\\') →
+      NoSplit false (('\\' :: l :: ds).flatMap escNameChar) ∧ escEnd false (('\\' :: l :: ds).flatMap escNameChar) = false := by
+    intro l ds h1 h2 h3 hds
+    have e : ('\\' :: l :: ds).flatMap escNameChar = '\\' :: l :: ds :=
+      flatMap_escNameChar_id _ (by
+        intro x hx; simp only [List.mem_cons] at hx
+        rcases hx with rfl | rfl | hx
+        · decide
+        · exact ⟨h1, h2⟩
+        · exact ⟨(hds x hx).1, (hds x hx).2.1⟩)
+    rw [e]
+    have := plainRun ds (fun x hx => ⟨(hds x hx).2.1, (hds x hx).2.2⟩)
+    simp only [NoSplit, escEnd, Bool.not_false, Bool.true_and, decide_true, Bool.not_true, Bool.false_and]
+    exact ⟨⟨by decide, fun _ => trivial, this.1⟩, this.2⟩
+  unfold encChar
+  simp only
   split
-  · rfl
-  · rw [escapeName_eq, getLast_flatMap_escD, getLast_flatMap_escD]
-    exact getLast_encodeUE n h
+  · simp [NoSplit, escEnd, escNameChar]
+  · split
+    · simp [NoSplit, escEnd, escNameChar]
+    · split
+      · simp [NoSplit, escEnd, escNameChar]
+      · split
+        · simp [NoSplit, escEnd, escNameChar]
+        · split
+          · unfold hexEscape
+            split
+            · exact hex 'x' _ (by decide) (by decide) (by decide) (by
+                intro x hx; simp [hex2] at hx
+                rcases hx with rfl | rfl <;> exact hexDigit_name _ (by omega))
+            · split
+              · exact hex 'u' _ (by decide) (by decide) (by decide) (by
+                  intro x hx; simp [hex4] at hx
+                  rcases hx with rfl | rfl | rfl | rfl <;> exact hexDigit_name _ (by omega))
+              · exact hex 'U' _ (by decide) (by decide) (by decide) (by
+                  intro x hx; simp [hex8] at hx
+                  rcases hx with rfl | rfl | rfl | rfl | rfl | rfl | rfl | rfl <;> exact hexDigit_name _ (by omega))
+          · rename_i hbs _ _ _ _
+            by_cases h1 : c = ':'
+            · subst h1; simp [NoSplit, escEnd, escNameChar]
+            · by_cases h2 : c = '.'
+              · subst h2; simp [NoSplit, escEnd, escNameChar]
+              · simp only [List.flatMap_cons, List.flatMap_nil, List.append_nil, escNameChar_id c h1 h2]
+                simp only [NoSplit, escEnd, hbs, decide_false, Bool.and_false]
+                exact ⟨⟨fun e => absurd e h2, trivial⟩, trivial⟩
 
-theorem splitDots_join (ns : List Str) (hne : ns ≠ []) (h : ∀ n ∈ ns.dropLast, n.getLast? ≠ some '\\') :
+theorem escapeName_ok (n : Str) : NoSplit false (escapeName n) ∧ escEnd false (escapeName n) = false := by
+  induction n with
+  | nil => exact ⟨True.intro, rfl⟩
+  | cons c cs ih =>
+    have e : escapeName (c :: cs) = (encChar c).flatMap escNameChar ++ escapeName cs := by
+      simp [escapeName, encodeUE]
+    have hb := nameBlock_ok c
+    rw [e]
+    constructor
+    · exact NoSplit_append _ _ false hb.1 (by rw [hb.2]; exact ih.1)
+    · rw [escEnd_append, hb.2]; exact ih.2
+
+theorem splitDots_join (ns : List Str) (hne : ns ≠ []) :
     splitDots false (joinChar '.' (ns.map escapeName)) = ns.map escapeName := by
   induction ns with
   | nil => exact absurd rfl hne
   | cons n rest ih =>
+    have hn := escapeName_ok n
     cases rest with
     | nil =>
       simp only [List.map_cons, List.map_nil, joinChar]
-      have := noSplit_flatMap_dot ((encodeUE n).flatMap (escD ':')) false
-      rw [← escapeName_eq] at this
-      exact splitDots_noSplit _ false this
+      have := splitDots_append (escapeName n) [] false hn.1
+      simp only [List.append_nil, hn.2, splitDots, consHead] at this
+      exact this
     | cons m ms =>
       simp only [List.map_cons, joinChar]
-      have hn : n.getLast? ≠ some '\\' := h n (by simp [List.dropLast])
-      have hns := noSplit_flatMap_dot ((encodeUE n).flatMap (escD ':')) false
-      rw [← escapeName_eq] at hns
-      rw [splitDots_sep _ _ false hns (endsOk_escapeName n hn)]
-      have := ih (by simp) (fun x hx => h x (by simp [List.dropLast] at hx ⊢; right; exact hx))
+      rw [splitDots_append _ _ false hn.1, hn.2]
+      simp only [splitDots, Bool.not_false, true_and, if_true]
+      have := ih (by simp)
       simp only [List.map_cons] at this
       rw [this]
+      simp [consHead]
 
 theorem resAll_ok (ns : List Str) : resAll (ns.map fun n => Res.ok n) = some ns := by
   induction ns with
   | nil => rfl
   | cons n rest ih => simp [resAll, ih]
 
-theorem splitName_joinName_aux (ns : List Str) (hne : ns ≠ []) (h : ∀ n ∈ ns.dropLast, n.getLast? ≠ some '\\') :
-    splitName (joinName ns) = some ns := by
+theorem splitName_joinName_aux (ns : List Str) (hne : ns ≠ []) : splitName (joinName ns) = some ns := by
   unfold splitName joinName
-  rw [splitDots_join ns hne h, List.map_map]
+  rw [splitDots_join ns hne, List.map_map]
   have : (unescapeName ∘ escapeName) = fun n => Res.ok n := by
     funext n; exact unescapeName_escapeName n
   rw [this, resAll_ok]
 
-
+/-- a name made by `join` is reader-safe as soon as it has no blank and does not start with `#` -/
+theorem escapeName_escEnd (n : Str) : escEnd false (escapeName n) = false := (escapeName_ok n).2
 
 theorem resetChannel_follows {α : Type} (C : Cls α) (B : Str) (s s' : St α) (n c : Str)
     (h : resetChannel C B s (some n) c = (s', .done)) :
